@@ -777,3 +777,38 @@ def arbitrary_bytes(rng: random.Random, n: int, mode: int | None = None) -> byte
         return bytes(rng.choice((1, 2, 3, 0x41, 0, 2, 1)) for _ in range(n))
     # mostly small with a few hostile bytes
     return bytes(rng.choice((0, 1, 2, 3, 4, 0x80, 0xFF, rng.randrange(256))) for _ in range(n))
+
+
+def deep_folded_case(rng):
+    """A structure whose array lengths (one or two dimensions, also a constant outer with a computed inner one) name
+    fields folded in through two or three levels of anonymous structures, the innermost one optionally a union, with
+    and without a constant of the same name.  Returns a case (hand-built)."""
+    depth = rng.randint(2, 3)
+    cnt = F("n", N_int("uint8"), len_src=True)
+    innermost = [cnt, F("q", N_int(rng.choice(["uint8", "uint16"])))]
+    if rng.random() < 0.5:
+        innermost.reverse()
+    node = N_struct(innermost, union=rng.random() < 0.35)
+    if node.get("union"):
+        node["fields"] = [cnt, F("raw", N_int("uint8"))]
+    for lvl in range(depth - 1):
+        extra = F(f"k{lvl}", N_int(rng.choice(["uint8", "int8", "uint16"])), len_src=lvl == 0)
+        fields = [extra, F(None, node)] if rng.random() < 0.6 else [F(None, node), extra]
+        node = N_struct(fields)
+    elem = N_int(rng.choice(["uint8", "uint16", "uint32"]))
+    expr = rng.choice(["n", "n & 3", "(n & 1) + 1"])
+    arr = N_array(elem, L_expr(expr))
+    x = rng.random()
+    if x < 0.25:
+        arr = N_array(N_array(elem, L_expr("n & 3")), L_expr("k0 & 1"))
+    elif x < 0.5:
+        # constant outer dimension, computed inner one
+        arr = N_array(N_array(elem, L_expr(expr)), L_fixed(rng.randint(1, 3)))
+    fields = [F("h", N_int("uint8")), F(None, node), F("a", arr), F("t", N_int("uint8"))]
+    consts, decls = {}, ()
+    if rng.random() < 0.3:
+        # a constant of the same name: the field read before the array wins
+        consts, decls = {"n": 2}, ({"d": "define", "name": "n", "text": "2"},)
+    case = simple_case(fields, consts=consts, decls=decls)
+    case["named"] = {}
+    return case
